@@ -321,6 +321,7 @@ func init() {
 }
 
 func runC15(c *eng.Ctx) {
+	BuildDoors = true // Build / BuildWithContext / BuildWithOptions in turn (a function of the spec)
 	cr := &caseRunner{c: c, prop: "C15"}
 	defer func() {
 		if C15Concurrent != nil {
@@ -334,6 +335,7 @@ func runC15(c *eng.Ctx) {
 	RunOddResultLists(c, cr.next)
 	RunBuildTimeLimit(c, cr.next)
 	RunPartialOutputs(c, "C15", cr.next)
+	RunVariadicFailures(c, cr.next)
 	nSpecs := c.Pick(300, 6000)
 	for k := 0; k < nSpecs; k++ {
 		idx, mine := cr.next()
